@@ -1,8 +1,15 @@
 // Package setxl is the Go -> Gallina translator shared by the translator ties of the set group
-// (xlate_bitset: set/bit_set.go for C11; xlate_set: set/set.go for C07 and C17).
+// (xlate_bitset: BitSet of package set for C11; xlate_set: Set of package set for C07 and C17).
 //
-// It reads ONE Go source file with go/parser and regenerates, for the requested root functions
-// and every function of the file they (transitively) call, a Gallina definition.  The tie files
+// It reads the WHOLE PACKAGE the way the compiler selects its files (harness/internal/srcset: every
+// non-test .go file of the directory that matches the build context of the harness build — tag
+// verif, Go version tags), so code delivered in a sibling file or behind a build constraint is what
+// gets translated and files the build rejects are never read.  The tie fails (`unsupported:
+// package: …`) when a function is declared in two matching files, when an init() refers to the tied
+// type or setVal, when setVal is written anywhere, and when Set declares a method the libraries call
+// implicitly (MarshalText, UnmarshalText, IsZero, String, GoString, Format, Error).  It regenerates,
+// for the requested root functions/methods of the tied type and every function of the package they
+// (transitively) call, a Gallina definition.  The tie files
 // (coq/ties/Tie_C07.v, Tie_C11.v, Tie_C17.v) then prove `forall args, gen_F args = model_F args`
 // against the regenerated file, by tactics that do not depend on the syntactic shape of the
 // regenerated term (coq/theories/Base/SetLoopTie.v).
@@ -29,8 +36,9 @@
 //     explicit iteration order), `for i := range xs` and `for i := 0; i < len(xs); i++` where i is
 //     used only as `xs[i]` and neither i nor xs is assigned in the body; `continue`, `break`,
 //     `return` inside loops (nested loops too);
-//   - operators | & &^ ^(as and-not) == != < <= > >= + || && !, conversions between the flag
-//     type and BitSet[T] (identity on N), integer literals, true/false, nil;
+//   - operators | & &^ ^(as and-not) == != < <= > >= + || && !, the WIDENING conversions
+//     BitSet[T](x) and uint64(x) (identity on N; T(x), uint8(x), … may narrow and are unsupported),
+//     integer literals, true/false, nil;
 //   - (set.go codecs) the library calls json.Marshal(x) in a return, json.Unmarshal(d, &v) and
 //     node.Decode(&v): Section variables of the generated file.
 //
@@ -41,10 +49,13 @@ package setxl
 import (
 	"fmt"
 	"go/ast"
-	"go/parser"
 	"go/token"
+	"os"
+	"path/filepath"
 	"sort"
 	"strings"
+
+	"gtverif/internal/srcset"
 )
 
 // Kind classifies Go values of the subset.
@@ -661,7 +672,8 @@ func (x *xl) call(c *ast.CallExpr, env *scope) (string, Kind) {
 		}
 	case *ast.Ident:
 		switch fun.Name {
-		case "T", "uint64", "uint32", "uint16", "uint8", "uint":
+		case "uint64":
+			// widening to the set's own width: the identity on N
 			if x.cfg.Dialect == "bitset" && len(c.Args) == 1 {
 				a, k := x.exprAs(c.Args[0], env, KBits)
 				if k == KBits {
@@ -669,6 +681,9 @@ func (x *xl) call(c *ast.CallExpr, env *scope) (string, Kind) {
 				}
 			}
 			return x.bad("conversion"), KBad
+		case "T", "uint32", "uint16", "uint8", "uint", "int", "int64", "int32", "int16", "int8":
+			// possibly NARROWING (BitSet[T] is a uint64, T may be 8 bits wide): not the identity on N
+			return x.bad("narrowing conversion " + fun.Name + "(..)"), KBad
 		case "len":
 			if len(c.Args) == 1 {
 				a, k := x.expr(c.Args[0], env)
@@ -1608,8 +1623,57 @@ func (x *xl) forStmt(s *ast.ForStmt, env *scope, k konts, rest func() string, in
 
 // ---------------------------------------------------------------- functions
 
-func (x *xl) collect(file *ast.File) {
-	for _, d := range file.Decls {
+// recvType names the receiver's type without '*' and type parameters ("" for functions).
+func recvType(fd *ast.FuncDecl) string {
+	if fd.Recv == nil || len(fd.Recv.List) != 1 {
+		return ""
+	}
+	t := fd.Recv.List[0].Type
+	for {
+		switch tt := t.(type) {
+		case *ast.StarExpr:
+			t = tt.X
+			continue
+		case *ast.ParenExpr:
+			t = tt.X
+			continue
+		case *ast.IndexExpr:
+			t = tt.X
+			continue
+		case *ast.IndexListExpr:
+			t = tt.X
+			continue
+		case *ast.Ident:
+			return tt.Name
+		}
+		return "?"
+	}
+}
+
+// tiedType is the type whose methods the dialect translates.
+func (x *xl) tiedType() string {
+	if x.cfg.Dialect == "bitset" {
+		return "BitSet"
+	}
+	return "Set"
+}
+
+func mentions(n ast.Node, ident string) bool {
+	found := false
+	if n == nil {
+		return false
+	}
+	ast.Inspect(n, func(m ast.Node) bool {
+		if id, ok := m.(*ast.Ident); ok && id.Name == ident {
+			found = true
+		}
+		return true
+	})
+	return found
+}
+
+func (x *xl) collect(decls []ast.Decl) {
+	for _, d := range decls {
 		if gd, ok := d.(*ast.GenDecl); ok && gd.Tok == token.CONST {
 			for _, sp := range gd.Specs {
 				vs := sp.(*ast.ValueSpec)
@@ -1623,6 +1687,13 @@ func (x *xl) collect(file *ast.File) {
 		}
 		fd, ok := d.(*ast.FuncDecl)
 		if !ok || fd.Body == nil {
+			continue
+		}
+		// the whole package is read: methods of other types are not this dialect's
+		if rt := recvType(fd); rt != "" && rt != x.tiedType() {
+			continue
+		}
+		if fd.Name.Name == "init" || fd.Name.Name == "_" {
 			continue
 		}
 		f := &Func{Name: fd.Name.Name, decl: fd}
@@ -1845,14 +1916,71 @@ type Result struct {
 }
 
 // Translate parses src and renders the Gallina file.
+// Translate reads the PACKAGE that path belongs to (path: the directory, or any file in it) the way
+// the compiler selects its files — every non-test .go file matching the build context of the harness
+// build (tag verif, Go version tags) — and renders the Gallina file.  Code delivered in a sibling
+// file or behind a build constraint is therefore what gets translated; files the build rejects are
+// listed in the output and never read.
 func Translate(path string, cfg Config) (*Result, error) {
-	fset := token.NewFileSet()
-	file, err := parser.ParseFile(fset, path, nil, 0)
+	dir := path
+	if st, err := os.Stat(path); err != nil {
+		return nil, err
+	} else if !st.IsDir() {
+		dir = filepath.Dir(path)
+	}
+	pkg, err := srcset.Load(dir, "verif")
 	if err != nil {
 		return nil, err
 	}
 	x := &xl{cfg: cfg, funcs: map[string]*Func{}, consts: map[string]ast.Expr{}, store: cfg.Dialect == "store"}
-	x.collect(file)
+	var decls []ast.Decl
+	for _, f := range pkg.Files {
+		decls = append(decls, f.Decls...)
+	}
+	x.collect(decls)
+	var pkgProblems []string
+	// a function declared more than once among the matching files, init functions, writes to the
+	// package variable the translation resolves by name, methods the libraries pick up implicitly
+	seenDecl := map[string]string{}
+	for _, f := range pkg.Files {
+		for _, d := range f.Decls {
+			fd, ok := d.(*ast.FuncDecl)
+			if !ok || fd.Name.Name == "init" || fd.Name.Name == "_" {
+				continue
+			}
+			key := recvType(fd) + "." + fd.Name.Name
+			if prev, dup := seenDecl[key]; dup {
+				pkgProblems = append(pkgProblems, "package: "+key+" is declared in "+prev+" and in "+pkg.FileOf(fd))
+			}
+			seenDecl[key] = pkg.FileOf(fd)
+		}
+	}
+	for _, fd := range pkg.Inits() {
+		if mentions(fd.Body, x.tiedType()) || mentions(fd.Body, "setVal") {
+			pkgProblems = append(pkgProblems, "package: init() in "+pkg.FileOf(fd)+" refers to "+x.tiedType()+" / setVal")
+		}
+	}
+	if w := pkg.WritesTo("setVal"); len(w) > 0 {
+		pkgProblems = append(pkgProblems, "package: setVal is written in "+strings.Join(w, ", "))
+	}
+	if cfg.Dialect != "bitset" {
+		// methods that encoding/json, yaml.v3 and fmt call implicitly on a Set (or on *Set) and that the
+		// model of the codecs knows nothing about
+		for _, m := range pkg.MethodsOf("Set") {
+			switch m {
+			case "MarshalText", "UnmarshalText", "IsZero", "String", "GoString", "Format", "Error":
+				pkgProblems = append(pkgProblems, "package: Set declares "+m+", which the libraries call implicitly")
+			}
+		}
+	}
+	if len(cfg.Roots) == 0 {
+		// every method of the tied type and every function whose signature mentions it
+		for _, f := range x.order {
+			if f.recv != "" || mentions(f.decl.Type, x.tiedType()) {
+				cfg.Roots = append(cfg.Roots, f.Name)
+			}
+		}
+	}
 	res := &Result{}
 	// which functions: roots and everything they call, callees first
 	var emit []*Func
@@ -1878,13 +2006,13 @@ func Translate(path string, cfg Config) (*Result, error) {
 		emit = append(emit, f)
 	}
 	roots := cfg.Roots
-	if len(roots) == 0 {
-		for _, f := range x.order {
-			roots = append(roots, f.Name)
-		}
-	}
 	var b strings.Builder
-	b.WriteString("(* GENERATED by harness/internal/setxl (dialect " + cfg.Dialect + ") from " + shortPath(path) + " of the current tree — do not edit *)\n")
+	b.WriteString("(* GENERATED by harness/internal/setxl (dialect " + cfg.Dialect + ") from package " + shortPath(dir) + " of the current tree: files " +
+		strings.Join(pkg.Names, ", ") + "; excluded by build constraints: " + strings.Join(pkg.Excluded, ", ") + " — do not edit *)\n")
+	if len(pkgProblems) > 0 {
+		b.WriteString("Definition package_check := UNSUPPORTED_package_layout.\n")
+		res.Problems = append(res.Problems, pkgProblems...)
+	}
 	b.WriteString(cfg.Header)
 	for _, r := range roots {
 		if _, ok := x.funcs[r]; !ok {
